@@ -45,5 +45,6 @@ theorem finishAndNotifyShape : Facts.finishAndNotifyShape = Spec.finishAndNotify
 theorem setAccessTimeShape : Facts.setAccessTimeShape = Spec.setAccessTimeShape := by rfl
 theorem getAccessCall : Facts.getAccessCall = Spec.getAccessCall := by rfl
 theorem getStorageMetadataShape : Facts.getStorageMetadataShape = Spec.getStorageMetadataShape := by rfl
+theorem sendBodySites : Facts.sendBodySites = Spec.sendBodySites := by rfl
 
 end Pins
